@@ -138,6 +138,116 @@
     #[kani::stub(crate::copy_error, crate::vk::err_copy)]
     fn c05_bcj_reader_fault_1() { bcj_reader_fault_at(1); }
 
+    /// source that reports Interrupted at one chosen call and otherwise delivers everything it has
+    struct IntrSrc { buf: [u8; 10], pos: usize, calls: usize, intr_at: usize }
+    impl Read for IntrSrc {
+        fn read(&mut self, out: &mut [u8]) -> crate::Result<usize> {
+            let c = self.calls;
+            self.calls += 1;
+            if c == self.intr_at { return Err(vk::mk_err(vk::Kind::Interrupted)); }
+            let n = 10 - self.pos;
+            let mut i = 0;
+            while i < n { out[i] = self.buf[self.pos + i]; i += 1; }
+            self.pos += n;
+            Ok(n)
+        }
+    }
+    /// C05.filter.r (Interrupted): the source reports Interrupted once, at inner call `at`. Whatever the reader then
+    /// returns to a caller that retries: the bytes of its successful reads, concatenated, are a prefix of the correctly
+    /// filtered stream, and end of data (Ok(0)) is reported only when the whole stream was delivered - never success with
+    /// bytes missing or shifted. (at = 1 is the call made after leftover filtered bytes were already copied to the caller.)
+    fn bcj_reader_interrupted<const AT: usize>() {
+        let data: [u8; 10] = vk::any();
+        let mut expected = data;
+        let mut f = BCJFilter::new_arm(0, false);
+        f.code(&mut expected);
+        let mut r = BCJReader::new_arm(IntrSrc { buf: data, pos: 0, calls: 0, intr_at: AT }, 0);
+        // `have` = the caller's position in the decoded stream = bytes its successful reads returned so far.
+        // The scenario (first read returns 3 bytes / the Interrupted error comes back at the inner call it was injected
+        // at) is ASSUMED read by read - other legal shapes (a shorter first read, ...) are not examined, and the final
+        // cover turns an unsatisfiable scenario into UNDECIDED, never into an alarm. What is asserted is only the property.
+        let mut out = [0u8; 3];
+        let mut have = 0usize;
+        let r1 = r.read(&mut out);
+        if AT == 0 {
+            vk::assume(r1.is_err());
+        } else {
+            vk::assume(matches!(r1, Ok(3)));
+            assert!(out[0] == expected[0] && out[1] == expected[1] && out[2] == expected[2]);
+            have = 3;
+        }
+        let mut out2 = [0u8; 9];
+        let r2 = r.read(&mut out2);
+        if AT == 1 {
+            vk::assume(r2.is_err());
+            if let Err(e) = &r2 { assert!(vk::kind_of(e) == vk::Kind::Interrupted); }
+        } else {
+            match r2 { Ok(n) => { check_at(&out2, n, have, &expected); have += n; } Err(e) => { assert!(vk::kind_of(&e) == vk::Kind::Interrupted); } }
+        }
+        // the retry a caller makes after Interrupted (AT = 2: the read after the end of the stream)
+        let mut out3 = [0u8; 9];
+        match r.read(&mut out3) {
+            Ok(n) => { check_at(&out3, n, have, &expected); }
+            Err(e) => { assert!(vk::kind_of(&e) == vk::Kind::Interrupted); }
+        }
+        crate::vcover!(true);
+    }
+    /// a successful read of n bytes at stream position `have`: n = 0 only at the end of the stream, bytes = the filtered stream
+    fn check_at(buf: &[u8; 9], n: usize, have: usize, expected: &[u8; 10]) {
+        assert!(n <= 9 && have + n <= 10, "more bytes than the stream holds");
+        if n == 0 { assert!(have == 10, "end of data reported with bytes missing"); }
+        let mut i = 0;
+        while i < 9 { if i < n { assert!(buf[i] == expected[have + i], "bytes delivered after an interrupted read differ from the filtered stream"); } i += 1; }
+    }
+    #[kani::proof]
+    #[kani::unwind(12)]
+    //@ERR
+    #[kani::stub(crate::copy_error, crate::vk::err_copy)]
+    fn c05_bcj_reader_interrupted_0() {
+        // Interrupted at the very first inner call: nothing was handed out yet (have = 0)
+        let data: [u8; 10] = vk::any();
+        let mut expected = data;
+        let mut f = BCJFilter::new_arm(0, false);
+        f.code(&mut expected);
+        let mut r = BCJReader::new_arm(IntrSrc { buf: data, pos: 0, calls: 0, intr_at: 0 }, 0);
+        let mut out = [0u8; 3];
+        let r1 = r.read(&mut out);
+        vk::assume(r1.is_err());
+        if let Err(e) = &r1 { assert!(vk::kind_of(e) == vk::Kind::Interrupted); }
+        let mut out2 = [0u8; 9];
+        match r.read(&mut out2) { Ok(n) => { check_at(&out2, n, 0, &expected); } Err(e) => { assert!(vk::kind_of(&e) == vk::Kind::Interrupted); } }
+        crate::vcover!(true);
+    }
+    #[kani::proof]
+    #[kani::unwind(12)]
+    //@ERR
+    #[kani::stub(crate::copy_error, crate::vk::err_copy)]
+    fn c05_bcj_reader_interrupted_1() {
+        // first read returns 3 bytes; the second read copies the 5 leftover filtered bytes into the caller's buffer and
+        // then meets Interrupted at the inner call; the caller retries: (have = 3)
+        let data: [u8; 10] = vk::any();
+        let mut expected = data;
+        let mut f = BCJFilter::new_arm(0, false);
+        f.code(&mut expected);
+        let mut r = BCJReader::new_arm(IntrSrc { buf: data, pos: 0, calls: 0, intr_at: 1 }, 0);
+        let mut out = [0u8; 3];
+        let r1 = r.read(&mut out);
+        vk::assume(matches!(r1, Ok(3)));
+        assert!(out[0] == expected[0] && out[1] == expected[1] && out[2] == expected[2]);
+        let mut out2 = [0u8; 9];
+        let r2 = r.read(&mut out2);
+        vk::assume(r2.is_err());
+        if let Err(e) = &r2 { assert!(vk::kind_of(e) == vk::Kind::Interrupted); }
+        let mut out3 = [0u8; 9];
+        match r.read(&mut out3) { Ok(n) => { check_at(&out3, n, 3, &expected); } Err(e) => { assert!(vk::kind_of(&e) == vk::Kind::Interrupted); } }
+        crate::vcover!(true);
+    }
+    #[kani::proof]
+    #[kani::unwind(12)]
+    //@ERR
+    #[kani::stub(crate::copy_error, crate::vk::err_copy)]
+    fn c05_bcj_reader_interrupted_2() { bcj_reader_interrupted::<2>(); }
+
     /// C07.bcj.writer (single write): the sink receives the encoder filter applied to the buffer, the unconverted tail raw.
     #[kani::proof]
     #[kani::unwind(12)]
